@@ -11,7 +11,7 @@ SPEC = dict(
          'Further parts: after-refused (request after a refused re-pointing call goes to the endpoint accepted before), file-switch (file endpoint re-pointed after serving), long-query (6000-character query). '
          'Part after-bad-first: the asynchronous service is first offered one of 6 URIs it refuses, then the URI under test. '
          'Cases empty-credentials: a service with credentials re-pointed by a URI whose embedded user name or key is empty must not send the former credentials to the new host.'
-         ' Part odd-query: queries made of the other characters RFC 3986 allows there (a query beginning with \'?\', queries with \'/\', \':\' and \'@\').',
+         ' Part odd-query: queries, a path and a fragment made of the other characters RFC 3986 allows there (a query beginning with \'?\', \'/\', \':\', \'@\', \'~\' and the sub-delimiters).',
     bounds=dict(
         quick='factored product: every letter-case variant of ksi, ksi+http, ksi+https, ksi+tcp, file, http, https and the unknown schemes ftp, ksix, '
               'ksi+udp (523 spellings) x one representative of the rest (user-info u:k, host name, port 80, path /a/b.c, query, fragment); plus the '
